@@ -19,7 +19,7 @@ RULE = ("(CNF F, transformation, parameters): all CNFs with <= 2 variables and <
         "transformed formula <= 16 (quick) / 20 (thorough) variables; distinct = (F, transformation, parameters); trivial = F without clauses.")
 ASSUMPTIONS = ["vmon/tt.py truth tables (self-checked)", "gadget functions of this module (xor, or, majority = at least half, "
                "all-equal, exactly-one, thresholds, if-then-else, selection) are the documented ones"]
-REQUIRED = ["library_calls", "cli_calls", "exact_cases", "compression_cases", "lifting_cases", "empty_clause_inputs", "sampled_cases", "sampled_assignments", "named_variable_inputs",
+REQUIRED = ["library_calls", "cli_calls", "transformations_after_an_interruption", "exact_cases", "compression_cases", "lifting_cases", "empty_clause_inputs", "sampled_cases", "sampled_assignments", "named_variable_inputs",
             "unused_variable_inputs"] + ["t_" + t for t in ("xor", "or", "maj", "eq", "neq", "one", "exact", "atleast", "atmost",
                                                              "anybut", "ite", "lift", "flip", "xorcomp", "majcomp")]
 CASE_TIMEOUT = {"quick": 300, "thorough": 1800}
@@ -520,6 +520,8 @@ def workload(tier, seed):
         yield "edited_intermediate", {"rseed": seed * 1000 + i, "count": 40}
     for i in range(2 if tier == "quick" else 12):
         yield "two_threads", {"rseed": seed * 1000 + i}
+    for i in range(8 if tier == "quick" else 200):
+        yield "interrupted", {"rseed": seed * 1000 + i, "count": 30}
     for kind in ("xor", "xorcomp"):
         for k in ((13, 16, 17, 18) if tier == "quick" else range(12, 21)):
             yield "wide_gadget", {"kind": kind, "k": k, "rseed": seed}
@@ -650,6 +652,91 @@ def case_two_threads(ctx, rseed):
             ctx.judged(("threads", tuple(pair), rseed), nontrivial=True, sample={"concurrent": [list(map(str, k_)) for k_ in pair]})
     finally:
         sys.setswitchinterval(old)
+
+
+class _InterruptAt:
+    """Raises KeyboardInterrupt at the k-th line executed inside the library (files of the cnfgen package), the way a
+    Ctrl-C arrives in an interactive session: between two lines of whatever the library is doing.  Deterministic
+    (the interpreter's trace hook, no signal, no timer); k beyond the end of the call interrupts nothing."""
+
+    def __init__(self, k):
+        self.k, self.n, self.fired = k, 0, False
+
+    def __enter__(self):
+        import sys
+        self.old = sys.gettrace()
+
+        def local(frame, event, arg):
+            if event == "line":
+                self.n += 1
+                if self.n == self.k and not self.fired:
+                    self.fired = True
+                    raise KeyboardInterrupt("interrupted by the user")
+            return local
+
+        def tracer(frame, event, arg):
+            return local if "/cnfgen/" in frame.f_code.co_filename else None
+        sys.settrace(tracer)
+        return self
+
+    def __exit__(self, *exc):
+        import sys
+        sys.settrace(self.old)
+
+
+def case_interrupted(ctx, rseed, count):
+    """A transformation is interrupted half-way (KeyboardInterrupt between two lines of the library), the session
+    catches it and goes on: the next transformation computed in the same process must be the composition it documents."""
+    tt.selfcheck()
+    r = ctx.rng("c05interrupted", rseed)
+    victims = [("xor", [5]), ("maj", [5]), ("exact", [4, 2]), ("atleast", [4, 2]), ("atmost", [4, 1]), ("anybut", [4, 2]),
+               ("one", [4]), ("or", [3]), ("eq", [3]), ("neq", [3]), ("lift", [2]), ("ite", []), ("flip", []),
+               ("xorcomp", [[[1, 2, 3], [2, 3, 4], [1, 4, 5]], 5]), ("majcomp", [[[1, 2, 3], [2, 3, 4], [1, 4, 5]], 5])]
+    probes = [("xor", [2]), ("maj", [3]), ("exact", [3, 1]), ("atleast", [3, 2]), ("atmost", [3, 1]), ("anybut", [3, 1]),
+              ("one", [2]), ("or", [2]), ("eq", [2]), ("lift", [1]), ("xorcomp", [[[1, 2], [2, 3]], 3]),
+              ("majcomp", [[[1, 2, 3], [2, 3, 4]], 4])]
+    vcls = [[1, -2, 3], [-1, 2], [3], [-3, -2]]
+    for _ in range(count):
+        vkind, vparams = r.choice(victims)
+        with _InterruptAt(1 << 60) as dry:
+            try:
+                apply_library(vkind, vparams, build_input(3, vcls))
+            except Exception:       # noqa: BLE001 - judged elsewhere
+                continue
+        total = dry.n
+        if total < 3:
+            ctx.count("interruptions_not_possible")
+            continue
+        k = r.randint(1, total) if r.random() < 0.7 else r.randint(max(1, total - 12), total)
+        fired = False
+        try:
+            with _InterruptAt(k) as it:
+                apply_library(vkind, vparams, build_input(3, vcls))
+        except KeyboardInterrupt:
+            fired = True
+        except Exception as e:      # noqa: BLE001
+            ctx.count("interrupted_call_raised_something_else")
+        if not fired:
+            ctx.count("interruptions_that_came_too_late")
+            continue
+        ctx.count("transformations_interrupted")
+        ctx.count("interrupted:" + vkind)
+        for _p in range(2):
+            kind, params = r.choice(probes)
+            N = 2 if kind in ("xorcomp", "majcomp") else r.choice((1, 2))
+            if kind in ("xorcomp", "majcomp"):
+                N = len(params[0])
+            pool = [[1], [-1], [1, -N], [-1, N], [N], [-N], []]
+            clauses = [list(c) for c in r.sample(pool, r.choice((1, 2, 2, 3)))]
+            F = build_input(N, clauses)
+            st, T = ctx.call(apply_library, kind, params, F)
+            label = "%s%r on CNF(%d vars, %r) after %s%r was interrupted at line event %d of %d" % (
+                kind, params, N, clauses, vkind, vparams, k, total)
+            if st == "exc":
+                ctx.violation("%s:after-interruption:raises:%s" % (kind, type(T).__name__), "%s raised %r" % (label, T))
+                continue
+            ctx.count("transformations_after_an_interruption")
+            judge(ctx, N, clauses, kind, params, T, "after-interruption:%s@%d/%d" % (vkind, k, total), label)
 
 
 def case_wide_gadget(ctx, kind, k, rseed):
